@@ -270,6 +270,11 @@ ARGS = [
     "({valueOf: function () { return {}; }, toString: function () { return {}; }})", "({length: 4294967296, 0: 1})", "({length: -1})", "({get length() { throw new Error('len'); }})", "'\\ud800'", "(function () { return arguments; })(1)",
     "new Int32Array(2)", "Object.create(null)", "[[1], [2]]", "({toString: function () { return 'k'; }, valueOf: function () { return 3; }})", "'__proto__'", "'constructor'", "'9'.repeat(5000)", "'(['", "'{\"a\":'", "'a{99999}'", "'$<$1$&'", "'\\\\'", "'\\n\\u2028'", "1e400", "-9007199254740993", "0.1", "36", "'😀'", "new Error('e')",
     "(function f() { return f; })", "[undefined, null, NaN]", "({then: 1, length: '2', 0: 'a', 1: 'b'})",
+    # callbacks that re-enter the receiver (r is the receiver of the call being made): grow it, shrink it, replace elements, call the same
+    # method again from inside, or make the receiver throw on access
+    "(function () { try { r.push(0); } catch (e) {} return 0; })", "(function () { try { r.length = 0; } catch (e) {} return 1; })",
+    "(function () { try { r[0] = 9; r.splice(0, 1); r.unshift(1, 2); } catch (e) {} return -1; })", "(function (a, b) { try { r.sort(); r.reverse(); } catch (e) {} return a < b ? 1 : -1; })",
+    "(function () { try { Object.defineProperty(r, 'x', {get: function () { throw new Error('late'); }}); r.x; } catch (e) {} return NaN; })",
 ]
 
 
